@@ -35,7 +35,7 @@ def _idx(seq, pred):
     return [i for i, e in enumerate(seq) if pred(e)]
 
 
-def _graceful_shutdown(srv):
+def _graceful_shutdown(srv, collect=None):
     b = R.find_body(srv, r"^fn graceful_shutdown::\{closure#0\}\(_1: Pin<&mut \{async fn body of graceful_shutdown<S>\(\)\}>")
     cap = P.capture_index(b, "result")
     shutdown = R.source_tables()["enums"]["Shutdown"]
@@ -78,6 +78,10 @@ def _graceful_shutdown(srv):
             waited = bool(waits) and waits[-1] < sends[0] and not ex.feasible(list(p.pc) + [z3.Not(z3.Bool("select.ready"))])
             if waited:
                 reach["waited"].append(pc)
+                if collect is not None and state == 0:
+                    # (C11; judged on the paths from the start of the function, where the test of `result` is part of the path) a wait for the peer's running calls when the server is NOT stopping: the connection's slot stays taken for as long as they run
+                    collect.setdefault("waited_not_stopping", []).append(z3.And(pc, z3.Not(stopping)))
+                    collect.setdefault("reach", []).append(pc)
             elif state == 0:
                 # the writer is told to finish without waiting: only allowed when the server is not stopping
                 reach["not-stopping"].append(z3.And(pc, z3.Not(stopping)))
@@ -264,9 +268,8 @@ def _connection_task(srv):
     return b, viol, reach, bad
 
 
-def _accept_loop(srv):
-    """Server::start_inner: every connection task gets a clone of the completion token; the function returns only after its own token was dropped and
-    the token channel reported that all clones are gone"""
+def _accept_paths(srv):
+    """explores Server::start_inner (two accept-loop iterations from every resume point); returns body, executor, paths, the 'token channel closed' symbol"""
     b = R.find_body(srv, r"^fn server::<impl at server/src/server\.rs:[\d: ]+>::start_inner::\{closure#0\}\(_1: Pin<&mut \{async fn body of")
     acc = R.source_tables()["enums"]["AcceptConnection"]
     outcome = z3.BitVec("accept.outcome", 64)
@@ -296,6 +299,13 @@ def _accept_loop(srv):
             return Fork([(flag, rd), (z3.Not(flag), lambda ex_, st_, tr: ex_.mk_variant("Poll", 1, "Pending"))])
         return NotImplemented
     ex, ctx, paths = P.explore(srv, b, extra_models=[(r"as (futures_util::|std::future::)?Future>::poll$", m_poll)] + list(SQ.TRY_MODELS) + list(M.TRACING_MODELS) + list(M.INT_MODELS), max_paths=20000, max_visits=3)
+    return b, ex, paths, closed
+
+
+def _accept_loop(srv):
+    """Server::start_inner: every connection task gets a clone of the completion token; the function returns only after its own token was dropped and
+    the token channel reported that all clones are gone"""
+    b, ex, paths, closed = _accept_paths(srv)
     bad = [(p.kind, p.detail) for p in paths if p.kind in ("unsupported", "limit")]
     viol, reach = [], {"connection": [], "finished": []}
     fi_tok = R.field_index("ProcessConnection", "drop_on_completion")
